@@ -54,10 +54,9 @@ def matcher_cfg(metric, thr, m2o):
 def run_impl(pred, ref, metric, thr, m2o):
     m = NaiveThresholdMatching(matching_metric=impl.METRICS[metric], matching_threshold=thr[0] / thr[1],
                                allow_many_to_one=m2o)
-    # every library call gets arrays of its own: one that writes into its arguments must not reach the oracle's copy
-    up = UnmatchedInstancePair(pred.copy(), ref.copy())
+    up = UnmatchedInstancePair(pred, ref)
     with quiet():
-        pairs = F._calc_matching_metric_of_overlapping_labels(pred.copy(), ref.copy(), up.ref_labels, impl.METRICS[metric])
+        pairs = F._calc_matching_metric_of_overlapping_labels(pred, ref, up.ref_labels, impl.METRICS[metric])
         try:
             lm = m._match_instances(up)
             lmap = {int(k): int(v) for k, v in lm.labelmap.items()}
@@ -107,7 +106,11 @@ def one_case(ctx, pred, ref, metric, thr, m2o, src, check_monotone=True):
     if not pred.any() or not ref.any():
         return
     thr_f = Fraction(thr[0], thr[1])
-    pairs, lmap, order = run_impl(pred, ref, metric, thr, m2o)
+    # the library is called with the caller's array objects every time (results keyed by object identity must still be right);
+    # the oracle judges copies taken beforehand (a call that writes into its arguments must not reach them)
+    lib_pred, lib_ref = pred, ref
+    pred, ref = pred.copy(), ref.copy()
+    pairs, lmap, order = run_impl(lib_pred, lib_ref, metric, thr, m2o)
     # ---- property oracle on the implementation's answer
     if isinstance(lmap, str):
         ctx.case(inp, True)
@@ -140,7 +143,7 @@ def one_case(ctx, pred, ref, metric, thr, m2o, src, check_monotone=True):
         stricter = [t for t in grid if (Fraction(*t) < thr_f if oracle.DECREASING[metric] else Fraction(*t) > thr_f)]
         if stricter:
             t2 = ctx.rng.choice(stricter)
-            _, lmap2, _ = run_impl(pred, ref, metric, t2, m2o)
+            _, lmap2, _ = run_impl(lib_pred, lib_ref, metric, t2, m2o)
             if isinstance(lmap2, dict) and not set(lmap2.items()) <= set(lmap.items()):
                 ctx.violation(f"stricter threshold {t2} added matches {set(lmap2.items()) - set(lmap.items())}", inp,
                               impl={"lmap": lmap, "lmap_stricter": lmap2, "thr2": list(t2)}, key={"kind": "non-monotone"})
